@@ -177,7 +177,20 @@ fn finish_history(a: &DistinguishedName, key: &LiveKey, case: &str, out: &mut Ou
 pub fn run_history(ops: &[Value], case: &str, key: &LiveKey, out: &mut Out) {
 	out.event("Reset", case, json!({}), "Ok", "", json!({}));
 	let mut a = DistinguishedName::new();
-	for o in ops {
+	for (oi, o) in ops.iter().enumerate() {
+		// half-way through, the name is used once (it goes into parameters, a certificate is made, and the name comes back out
+		// of the certificate's parameters): being encoded is not an edit, the history simply goes on with the same name
+		if oi == ops.len() / 2 && oi > 0 {
+			let mut p = CertificateParams::default();
+			p.distinguished_name = a.clone();
+			p.serial_number = Some(SerialNumber::from_slice(&[2]));
+			if !cfg!(feature = "crypto") {
+				p.key_identifier_method = KeyIdMethod::PreSpecified(vec![1]);
+			}
+			if let Outcome::Ok(cert) = guarded(|| p.self_signed(&key.kp)) {
+				a = cert.params().distinguished_name.clone();
+			}
+		}
 		if sval(o, "op") == "push" {
 			push_logged(&mut a, "a", &o["e"], case, out);
 		} else {
@@ -218,7 +231,14 @@ pub fn run_random(out_path: &str, walks: usize, len: usize) {
 			if rng.chance(2, 3) {
 				let kind = *rng.pick(&kinds);
 				// one value in eight is the empty string (every kind has it)
-				let text = if rng.chance(1, 8) { String::new() } else { random_text(kind, &mut rng, 6) };
+				// values that look like something a library might want to normalise (country codes in either case, padded text)
+				let text = if rng.chance(1, 8) {
+					String::new()
+				} else if rng.chance(1, 6) {
+					rng.pick(&["de", "uS", "Fr", "gb", " x ", "EXAMPLE", "example"]).to_string()
+				} else {
+					random_text(kind, &mut rng, 6)
+				};
 				ops.push(json!({"op": "push", "e": {"ty": ty, "oid": oid, "kind": kind, "val": hex(text.as_bytes())}}));
 			} else {
 				ops.push(json!({"op": "remove", "e": {"ty": ty, "oid": oid, "kind": "", "val": ""}}));
